@@ -396,7 +396,8 @@ func VerifHarness_C13_RoundTripDateTime() {
 // Quantity: symbolic value, unit menu (UCUM in quotes, calendar keywords, the default unit).
 func VerifHarness_C13_RoundTripQuantity() {
 	d := verifrt.NondetDecimalDigits("v", verifrt.Choose("scale", 2), 3)
-	unit := []string{"mg", "1", "year", "days", "kg/m2", "ms"}[verifrt.Choose("unit", 6)]
+	// (UCUM codes are case sensitive: mL, mmHg, Cel keep their capitals through text)
+	unit := []string{"mg", "1", "year", "days", "kg/m2", "ms", "mL", "mmHg", "Cel"}[verifrt.Choose("unit", 9)]
 	verifrt.Tag("unitName", unit)
 	q, err := system.ParseQuantity(d.String(), unit)
 	verifrt.Assume(err == nil)
